@@ -152,7 +152,19 @@ func VerifyAuthRulesAtState(ctx context.Context, sp StateProvider, eventToVerify
 	if ctx.Err() != nil {
 		return fmt.Errorf("gomatrixserverlib.VerifyAuthRulesAtState: context cancelled: %w", ctx.Err())
 	}
-	if err := checkAllowedByAuthEvents(eventToVerify, roomState, nil, userIDForSender); err != nil {
+	// The event must be allowed by the state before it, whichever auth events
+	// it chose to cite: checking it against the cited events alone would let an
+	// event through that left out the state that forbids it.
+	stateBefore, _ := NewAuthEvents(nil)
+	for _, stateEvent := range roomState {
+		if stateEvent == nil {
+			continue
+		}
+		if err := stateBefore.AddEvent(stateEvent); err != nil {
+			return fmt.Errorf("gomatrixserverlib.VerifyAuthRulesAtState: invalid state at event %s: %w", eventToVerify.EventID(), err)
+		}
+	}
+	if err := Allowed(eventToVerify, stateBefore, userIDForSender); err != nil {
 		return fmt.Errorf(
 			"gomatrixserverlib.VerifyAuthRulesAtState: event %s is not allowed at state %s : %w",
 			eventToVerify.EventID(), eventToVerify.EventID(), err,
